@@ -947,11 +947,14 @@ Record spawn_facts := mkSpawnFacts {
   sf_load_registers : bool;
   sf_loaders_found : bool;
   sf_spawn_sites : N;
-  sf_spawn_sites_stripping : N }.
+  sf_spawn_sites_stripping : N;
+  sf_unlisted_key_vars : N }.   (* string literals shaped like a credential variable (.._KEY / _TOKEN / _SECRET / _PASSWORD) in
+                                  ripd, rip-cli, rip-tools that are NOT in the fixed list: a new fallback variable the spawn
+                                  path does not know *)
 Definition spawn_facts_wf (f : spawn_facts) : bool :=
   list_eqb str_eqb (sf_fixed_names f) [E_API_KEY; E_OPENAI; E_OPENROUTER]
   && sf_names_fresh f && sf_registry_grows_only f && sf_load_registers f && sf_loaders_found f
-  && (1 <=? sf_spawn_sites f) && (sf_spawn_sites f =? sf_spawn_sites_stripping f).
+  && (1 <=? sf_spawn_sites f) && (sf_spawn_sites f =? sf_spawn_sites_stripping f) && (sf_unlisted_key_vars f =? 0).
 
 (* UNFIXED behaviour (before the fix; KNOWN_FINDINGS C19/B1): the subprocess inherited the whole environment.  Still the
    behaviour of a tool that fetches the secret ITSELF with the user's OS permissions (/proc/<authority pid>/environ, a
@@ -1135,11 +1138,16 @@ Definition enc_visible (seen : env) (e : env) : list N :=
 (* outcome 99: only the diagnostic surface was exercised (GET /config/doctor, `rip config doctor`);
    outcome 98: multi-step - a subprocess was spawned, the files were edited, the edited configuration was loaded, a
    subprocess printed its environment: the report after the edit + what the probe saw; 97: the same with NOTHING
-   loading the edited configuration before the probe was spawned (control) *)
+   loading the edited configuration before the probe was spawned (control); 96: 98 + the probe was a provider-driven run *)
 Definition model_obs (c : case) : list N :=
   let w := case_world c in
   if cs_outcome c =? 99 then enc_report w else
   if cs_outcome c =? 98 then enc_report w ++ enc_visible (tool_env_at (cs_before c ++ [w]) (w_env w)) (w_env w) else
+  if cs_outcome c =? 96 then
+    (* the probe is a provider-driven run under the edited configuration: the request that opens it carries the key and
+       the headers of THAT configuration *)
+    enc_report w ++ enc_visible (tool_env_at (cs_before c ++ [w]) (w_env w)) (w_env w)
+    ++ enc_first_sent (out_sent (run 40 (outcome_script 6) (cs_thread c) w (lit "prompt") [IUser (lit "prompt")])) true else
   if cs_outcome c =? 97 then enc_report w ++ enc_visible (tool_env_at (cs_before c) (w_env w)) (w_env w) else
   let o := run 40 (outcome_script (cs_outcome c)) (cs_thread c) w (lit "prompt") [IUser (lit "prompt")] in
   let reqs := enc_req_frames (out_session o) in
